@@ -33,6 +33,12 @@ class Ctx:
         self.analysed_fns = set()
         self.notes = []
         from . import pattern as _P, inline as _I
+        self._P = _P
+        try:
+            with open(os.path.join(os.path.dirname(os.path.dirname(os.path.abspath(__file__))), 'rules', 'param_names.json')) as fh:
+                self._pnames = json.load(fh)
+        except OSError:
+            self._pnames = {}
         _P.EXPANDER = lambda d, keep, facts=facts: _I.expand(facts, d, 0, keep)
 
     # ---------------------------------------------------------------- anchors
@@ -43,7 +49,27 @@ class Ctx:
                     f'anchored function {name} not found (or ambiguous) in the current tree - fail closed', where=None)
             return None
         self.analysed_fns.add(b.name)
+        self.focus(b)
         return b
+
+    def focus(self, body):
+        """patterns name parameters as they were called when the rules were written; a later rename is resolved by position"""
+        old = self._pnames.get(body.name)
+        cur = [body.local_name(i) for i in range(1, body.argc + 1)]
+        if old and len(old) == len(cur) and old != cur:
+            self._P.PARAM_ALIAS = {n: i + 1 for i, n in enumerate(old) if n}
+            self._P.PARAM_CURRENT = tuple(c for c in cur if c)
+        else:
+            self._P.PARAM_ALIAS = None
+            self._P.PARAM_CURRENT = ()
+
+    def pidx(self, body, name):
+        """position of the parameter called `name` now, or that was called `name` when the rules were written"""
+        i = body.param_index(name)
+        if i:
+            return i
+        old = self._pnames.get(body.name) or []
+        return old.index(name) + 1 if name in old and len(old) == body.argc else None
 
     def adt(self, path):
         a = self.facts.adt(path)
@@ -74,6 +100,7 @@ class Ctx:
     # ---------------------------------------------------------------- DAG helpers
     def arg(self, site, k):
         b = site.body
+        self.focus(b)
         t = site.data
         if k >= len(t['args']):
             return ('missing',)
@@ -106,6 +133,7 @@ class Ctx:
 
     def retval(self, body):
         """the DAG of _0 at the (unique) return; phi over all definitions"""
+        self.focus(body)
         ex = body.exits()
         if not ex:
             return ('undef', 0)
@@ -114,6 +142,7 @@ class Ctx:
         return simplify(mk_phi(alts))
 
     def guards(self, body, bb):
+        self.focus(body)
         return G.must_literals(body).get(bb, frozenset())
 
     def guarded(self, body, bb, atom_pat, pol, env=None):
